@@ -158,7 +158,7 @@ def sid_values(c, n):
 
 # structurally valid DER with shapes the decoder does not expect: (name, builder knobs)
 SHAPES = ["no_recipient", "two_recipients", "three_recipients", "kekri_tag_1", "kekri_tag_3", "no_kek_other", "empty_eci", "eci_no_params", "empty_envelope", "content_absent",
-          "empty_content_wrapper", "kekid_empty", "recipient_not_constructed", "extra_field_after_eci", "version_symbolic", "deep_content", "deep_outer", "deep_recipient"]
+          "empty_content_wrapper", "kekid_empty", "recipient_not_constructed", "extra_field_after_eci", "version_symbolic", "deep_content", "deep_outer", "deep_recipient", "kek_other_is_set", "kek_other_is_octets", "kek_extra_boolean", "kek_date_then_other"]
 
 
 def _shaped_blob(c, shape):
@@ -180,6 +180,14 @@ def _shaped_blob(c, shape):
     ver = lambda name, dflt: (refs.cat(bytes([2, 1]), c.bytes(name, 1)) if shape == "version_symbolic" else bytes([2, 1, dflt]))
     other = der_seq(der_oid("1.3.6.1.4.1.311.74.1"), refs.ref_protection_descriptor(sid))
     kekid = der_seq() if shape == "kekid_empty" else (der_seq(der_octets(kid)) if shape == "no_kek_other" else der_seq(der_octets(kid), other))
+    if shape == "kek_other_is_set":
+        kekid = der_seq(der_octets(kid), der_set(der_oid("1.3.6.1.4.1.311.74.1"), refs.ref_protection_descriptor(sid)))
+    elif shape == "kek_other_is_octets":
+        kekid = der_seq(der_octets(kid), der_octets(c.bytes("stray", 3)))
+    elif shape == "kek_extra_boolean":
+        kekid = der_seq(der_octets(kid), bytes([1, 1, 0xFF]), other)
+    elif shape == "kek_date_then_other":
+        kekid = der_seq(der_octets(kid), cat(bytes([0x18, 15]), b"20240101000000Z"), other)
     body = cat(ver("v_kekri", 4), kekid, der_seq(der_oid("2.16.840.1.101.3.4.1.45")), der_octets(enc_cek))
     tagn = {"kekri_tag_1": 1, "kekri_tag_3": 3}.get(shape, 2)
     kekri = der_ctx(tagn, shape != "recipient_not_constructed", body)
@@ -209,7 +217,7 @@ def _shaped_blob(c, shape):
 
 
 @harness(P, per_job=True, params=[dict(shape=s) for s in SHAPES], raises=ALLOWED, budget_violation=True, max_steps=400000,
-         bounds="18 listed re-encodings of the CMS structure that are valid DER but not the expected shape (0 / 2 / 3 recipients, other recipient tags, missing optional or "
+         bounds="22 listed re-encodings of the CMS structure that are valid DER but not the expected shape (0 / 2 / 3 recipients, other recipient tags, missing optional or "
          "mandatory members, empty SEQUENCEs, an extra member, symbolic version octets, constructed values nested 3000 deep at three places), built with the independent DER builder around symbolic leaf values; DPAPINGBlob.unpack and "
          "the offline unprotect must end in a return, a cache miss or a deliberate error type", outside="other shapes", must_reach=("shape decoded or refused deliberately",))
 def shape_variants(c, shape):
